@@ -1,4 +1,5 @@
 import Tea.Render.Model
+import Tea.Proofs.Ansi
 /-
 Byte-count lemmas for the renderer model (helpers for C19): how many bytes the
 operations written by `flush` serialize to.
@@ -49,9 +50,10 @@ theorem len_cup_le (k : Nat) : (serialize (.cup k)).length ≤ 4 + (Dec.digits k
   · simp [csi]; omega
   · simp [csi]; omega
 
-theorem truncateLine_length_le (w : Nat) (l : Line) : (truncateLine w l).length ≤ l.length := by
-  simp [truncateLine, List.length_take]
-  omega
+/-- a truncated line is never longer, in bytes, than the line (the escape sequences are kept, only
+printing bytes are dropped) -/
+theorem truncateLine_length_le (w : Nat) (l : Line) : (truncateLine w l).length ≤ l.length :=
+  Ansi.truncate_length_le w l
 
 /-! ### one line of the paint loop -/
 
